@@ -17,7 +17,7 @@ ASSUMPTIONS = [
     "real deflate streams are not encoded (C library); the decompression cap is checked against the documented zlib contract only",
 ]
 BOUNDS = {
-    "quick": "<= 3 fragments with concrete payload lengths 0..4 and a final header-only frame with a free 7/16/64-bit declared length; maxFramePayloadSize and maxMessagePayloadSize free in 0..2^63; both roles, both fail modes; sendMessage with payload lengths 0..5 vs a free limit, with and without (auto)fragmentation; option setters with equal/unequal limit pairs; decompression cap free in 0..8 vs message lengths 0..6 x 2 messages",
+    "quick": "<= 3 fragments with concrete payload lengths 0..4 and a final header-only frame with a free 7/16/64-bit declared length; maxFramePayloadSize and maxMessagePayloadSize free in 0..2^63; both roles, both fail modes; sendMessage with payload lengths 0..5 vs a free limit, with and without (auto)fragmentation; option setters with equal/unequal limit pairs; decompression cap free in 0..8 vs message lengths 0..6 x 2 messages; the same limits while a locally started closing handshake is in progress (rxclosing/ units)",
     "thorough": "as quick with <= 4 fragments, lengths 0..8, every fragment split",
 }
 EXPECT_COVERS = ["rx:while-closing", "rx:over-msg-limit", "rx:over-frame-limit", "rx:within", "tx:refused", "tx:sent", "opts:set", "z:intact"]
